@@ -11,6 +11,7 @@ mod fgen;
 mod json;
 mod lockstep;
 mod monitors;
+mod printsub;
 mod refmodel;
 mod replay;
 mod report;
@@ -74,6 +75,9 @@ fn main() {
             for (name, _) in monitors::registry() {
                 println!("{}", name);
             }
+        }
+        "print-table" => {
+            printsub::child_main(&args[2]);
         }
         "gillham-table" => {
             print!("{}", monitors::c05::dump_gillham_table());
